@@ -1752,6 +1752,28 @@ class Analyzer:
             return q if (x >= 0) == (y > 0) else -q
         cs = [tdiv(x, y) for x in (alo, ahi) for y in (blo, bhi)]
         qlo, qhi = min(cs), max(cs)
+        if blo > 0 and alo >= 0 and qhi - qlo > 1 and (set(al.t) & set(bl.t)):
+            # numerator and divisor are correlated: a/b < Q+1 iff a - (Q+1) b < 0, a/b >= Q iff a - Q b >= 0, both linear for a
+            # fixed Q; the predicates are monotone in Q (b > 0), so the best Q is found by bisection
+            try:
+                lo_, hi_ = qlo, qhi
+                while lo_ < hi_:
+                    m_ = (lo_ + hi_) // 2
+                    if st.rng_lin_int(al.sub(bl.scale(m_ + 1)))[1] < 0:
+                        hi_ = m_
+                    else:
+                        lo_ = m_ + 1
+                nqhi = lo_
+                lo_, hi_ = qlo, nqhi
+                while lo_ < hi_:
+                    m_ = (lo_ + hi_ + 1) // 2
+                    if st.rng_lin_int(al.sub(bl.scale(m_)))[0] >= 0:
+                        lo_ = m_
+                    else:
+                        hi_ = m_ - 1
+                qlo, qhi = lo_, nqhi
+            except Infeasible:
+                raise
         t = T("sdiv" if signed else "udiv", w, al.key(), bl.key())
         qs = self.pmint(st, t, qlo, qhi, (al, bl))
         self.symdef[t] = ("div", al, bl)
